@@ -180,9 +180,9 @@ Print Assumptions timer_progress_pacing_refuted.
    get_timer() is the PTO deadline. *)
 Theorem timer_progress_pacing_fixed :
   let f := snd (frun true (full_init false) stale_history) in
-  let f0 := snd (fstep true f (FGetTimer 300)) in
-  timer_src 300 1010 f = (11, SrcPacing) /\
-  f_pacing (snd (frun true f0 (stale_loop 300 11))) = None /\
-  fst (frun true f0 (stale_loop 300 11)) = [RUnit; RSent SNone; RTimer (Some 300)].
+  let f0 := snd (fstep true f (FGetTimer 601)) in
+  timer_src 601 60200 f = (202, SrcPacing) /\
+  f_pacing (snd (frun true f0 (stale_loop 601 202))) = None /\
+  fst (frun true f0 (stale_loop 601 202)) = [RUnit; RSent SNone; RTimer (Some 601)].
 Proof. exact stale_history_fixed. Qed.
 Print Assumptions timer_progress_pacing_fixed.
